@@ -615,8 +615,20 @@ impl TypeSpace {
     where
         I: IntoIterator<Item = (RefKey, Schema)>,
     {
-        // Gather up all types to make things a little more convenient.
-        let definitions = type_defs.into_iter().collect::<Vec<_>>();
+        // Gather up all types to make things a little more convenient. A
+        // definition that has already been added with an identical schema
+        // keeps its type id and is not converted (and emitted) a second time.
+        let definitions = type_defs
+            .into_iter()
+            .filter(|(ref_name, schema)| {
+                let already_added = self.definitions.get(ref_name) == Some(schema)
+                    && self
+                        .ref_to_id
+                        .get(ref_name)
+                        .is_some_and(|type_id| self.id_to_entry.contains_key(type_id));
+                !already_added
+            })
+            .collect::<Vec<_>>();
 
         // Assign IDs to reference types before actually converting them. We'll
         // need these in the case of forward (or circular) references.
